@@ -230,6 +230,30 @@ impl HVal for (u64, u8, String) {
     }
 }
 
+macro_rules! result_hval {
+    ($t:ty, $e:ty, $name:expr) => {
+        impl HVal for Result<$t, $e> {
+            const NAME: &'static str = $name;
+            fn make(stamp: u64, size: usize, shape: u8) -> Self {
+                Ok(<$t as HVal>::make(stamp, size, shape))
+            }
+            fn stamp(&self) -> u64 {
+                match self {
+                    Ok(v) => HVal::stamp(v),
+                    Err(e) => HVal::stamp(e),
+                }
+            }
+            fn fp(&self) -> usize {
+                footprint(self)
+            }
+        }
+    };
+}
+result_hval!((u64, String), (u64, String), "Result<(u64,String),(u64,String)>");
+result_hval!((u64, Vec<u8>), (u64, String), "Result<(u64,Vec<u8>),(u64,String)>");
+result_hval!(UserVal, UserVal, "Result<UserVal,UserVal>");
+
+/// value types drawn by the L1 generators (the Result types are used by the differential engine only)
 pub const N_VTYPES: u8 = 9;
 
 /// Inline (zero-payload) footprint of each L1 value type, so generators can aim at M.
